@@ -517,6 +517,7 @@ type outcome struct {
 	Rendered    bool
 	Simulated   bool
 	SavedBytes  int
+	LoudRefusal bool
 	Note        string
 }
 
@@ -530,6 +531,9 @@ func checkBM(cs CaseSpec, bm *bondmachine.Bondmachine, structuralOnly bool) (oc 
 		return
 	}
 	oc.SavedBytes = len(s1)
+	if d := os.Getenv("C11_DUMP_JSON"); d != "" { // lets a human feed the saved machine to the real CLIs
+		os.WriteFile(d+"/saved.json", s1, 0o644)
+	}
 	h := sha256.Sum256(s1)
 	oc.Key = hex.EncodeToString(h[:8])
 	for _, d := range bm.Domains {
@@ -552,6 +556,11 @@ func checkBM(cs CaseSpec, bm *bondmachine.Bondmachine, structuralOnly bool) (oc 
 			return
 		}
 		if cres.LoadErr != "" {
+			if cs.Child == "fresh-noranges" {
+				// the opcode cannot be re-created without the range tables: refusing loudly is a correct answer
+				oc.LoudRefusal = true
+				return
+			}
 			fail("C11|load|panic", "loading in a fresh process failed: "+cres.LoadErr)
 			return
 		}
